@@ -25,6 +25,7 @@ def run(ctx):
     ctx.do(S.rule_ax1, [CORE], scope=ctx.scope(ENTRIES))
     ctx.do(SI.rule_pa1)
     ctx.do(SI.rule_svd1)
+    ctx.do(SI.rule_eigh1)
     ctx.do(D.rule_t3, [CORE])
     ctx.do(u1, ENTRIES, min_functions=12)
     ctx.r.assume("orthogonality, spans, signatures, kernels, that the "
